@@ -1,6 +1,8 @@
 package jose
 
 import (
+	"strings"
+
 	"pgregory.net/rapid"
 )
 
@@ -46,10 +48,18 @@ func genEnc(t *rapid.T, max int) []EncOp {
 	n := rapid.IntRange(1, max).Draw(t, "enc.n")
 	var out []EncOp
 	for i := 0; i < n; i++ {
-		out = append(out, EncOp{
+		e := EncOp{
 			Seg: rapid.IntRange(0, 2).Draw(t, "enc.seg"),
-			Op:  rapid.SampledFrom([]string{"pad", "std", "trailbits", "pad", "trailbits", "extra-seg", "lead-ws", "trail-nl"}).Draw(t, "enc.op"),
-		})
+			Op: rapid.SampledFrom([]string{"pad", "std", "trailbits", "pad", "trailbits", "extra-seg", "lead-ws", "trail-nl",
+				"ws-in", "ws-in", "ws-in", "ws-before", "ws-after"}).Draw(t, "enc.op"),
+		}
+		if strings.HasPrefix(e.Op, "ws-") {
+			e.Ch = rapid.SampledFrom([]string{"lf", "cr", "crlf", "sp", "tab"}).Draw(t, "enc.ch")
+			if e.Op == "ws-in" {
+				e.Pos = rapid.Uint32().Draw(t, "enc.pos")
+			}
+		}
+		out = append(out, e)
 	}
 	return out
 }
